@@ -66,8 +66,9 @@ CHECKS = {
                      "causality through the real wake code, factory result bitwise equal to the sum of separately built contributions.",
                 technique="property-based testing, ratio/metamorphic oracles and an impulse-response causality test", ref="DESIGN.md §3 C16"),
     "C17": dict(text="Structured generator of configurations and input files run on the ASan+UBSan build of the real program; valgrind memcheck on a generated "
-                     "subset for uninitialised reads; libFuzzer (coverage-guided) on the three text readers and the impedance factory with shape oracles.",
-                technique="structured fuzzing of the whole program under ASan/UBSan, valgrind subset, libFuzzer target", ref="DESIGN.md §3 C17"),
+                     "subset for uninitialised reads; libFuzzer (coverage-guided) on the three text readers and the impedance factory with shape oracles; the generated "
+                     "cases of every API-level sub-check (26 generators borrowed from C01-C20) executed against the real classes in an ASan+UBSan build of the shim.",
+                technique="structured fuzzing of the whole program and of the API harness under ASan/UBSan, valgrind subset, libFuzzer target", ref="DESIGN.md §3 C17"),
     "C18": dict(text="Generated histories of set-profile / wake / pad / csr requests on one long-lived field, each answer compared bit for bit with a freshly "
                      "constructed field given the current profiles.",
                 technique="stateful (model-based) property testing: history vs fresh object, bitwise oracle", ref="DESIGN.md §3 C18"),
@@ -91,7 +92,7 @@ def main():
     hook_commits = [c.split()[0] for c in commits if "INOVESA_VERIF" in c or c.split(" ", 1)[1].startswith("verif-hook")]
     m = dict(
         version=1,
-        setup_cmd="python3 build.py h5x shim rel san fuzz",
+        setup_cmd="python3 build.py h5x shim rel san fuzz shimsan",
         hooks=dict(guard="INOVESA_VERIF",
                    enable="build.py compiles every source of /repo's working tree with -DINOVESA_VERIF=1 (flavours rel, san, shim, fuzz)",
                    baseline_off_cmd="cmake --build /repo/_build && ctest --test-dir /repo/_build -j8 --timeout 900",
